@@ -7,9 +7,10 @@ SPEC = dict(
     harnesses=[dict(name="atm", asan=False, driver="qxdriver_c18")],
     exhaustive=True,
     rule="histories over {setSecurityPolicy, QXmppTrustManager::setTrustLevel (seed), public manual makeTrustDecisions(owner, authenticate-list, "
-         "distrust-list), received trust message (sender account/resource/key, usage, key-owner list; built as QXmppMessage, serialised to XML, "
-         "parsed back, sender key via QXmppE2eeMetadata) fed to QXmppAtmManager::handleMessage} on the real manager + QXmppAtmTrustMemoryStorage with an "
-         "own JID: 22 scripted corner sequences, then exhaustive to depth 3 (quick) / 4 (thorough) over a 24-symbol alphabet under both security "
+         "distrust-list), received trust message (sender account/resource/key, usage, key-owner list, message type chat/groupchat/headline/normal/error; built "
+         "as QXmppMessage, serialised to XML, parsed back, sender key via QXmppE2eeMetadata) fed to QXmppAtmManager::handleMessage directly or through "
+         "QXmppClient::messageReceived, some immediately duplicated (replay)} on the real manager + QXmppAtmTrustMemoryStorage with an "
+         "own JID: 27 scripted corner sequences, then exhaustive to depth 3 (quick) / 4 (thorough) over a 24-symbol alphabet under both security "
          "policies, then seeded random sequences of 4..30 operations over 3 accounts x 5 key ids (0 = empty id of an unencrypted message) x 2 "
          "encryption namespaces x 3 resources. After EVERY operation all stored trust levels and all held-back decisions of both namespaces are read "
          "back through the storage API, printed sorted together with the sequence of trustLevelsChanged emissions, and compared with the Lean model "
@@ -23,21 +24,33 @@ SPEC = dict(
         "does not influence the stored result (observations are sorted)",
     ],
     assumptions=[
-        "the sender key of a message is what QXmppE2eeMetadata::senderKey() reports (set by the decryption layer; empty for unencrypted messages); "
-        "the sender account is the bare JID of the server-stamped from attribute",
+        "the sender key of a message is what QXmppE2eeMetadata::senderKey() reports (set by the decryption layer, hence not forgeable; empty for "
+        "unencrypted messages); the sender account is the bare JID of the from attribute of the QXmppMessage the client delivers - for carbons / "
+        "forwarded copies that is whatever the carbon layer re-injects (C11 covers 'carbons only from the own account'); MAM results are not "
+        "delivered through messageReceived and never reach the manager; the message type is not looked at (a groupchat message from room/nick counts "
+        "as sent by the account room@service; its decisions can only be about keys of that JID and are held back for ever unless a key is "
+        "authenticated for it)",
         "only the memory storage is modelled; a storage whose tasks finish asynchronously could interleave two handleMessage calls, which is outside the model",
         "trust messages SENT by the manual makeTrustDecisions are counted but not modelled (C18 is about received messages)",
         "held-back decisions are filed under the sender's key ID alone (the store keeps no sender account): 'that key later becomes authenticated' is "
         "read as 'authenticate() runs on a batch that contains a key with that ID and has the decision in scope (an own key or a key of the "
-        "decision's owner in the batch)'; with a key ID used by two accounts a held decision can also be dropped unapplied (superseded by the same "
-        "verdict for the same key ID of another owner, discarded by a distrust of that ID for another account, overwritten by another account's "
-        "message with the same sender key ID) - counted in the statistics, never outside the sender's scope",
+        "decision's owner in the batch)'; when one key ID is used with two accounts a held decision can be thrown away unapplied - by a distrust of "
+        "that ID for another account or by a fired decision with the same verdict for the same key ID of another owner (finding "
+        "C18:cross-account-discard, theorems C18_defect_cross_account_discard_by_*), or overwritten / fired through a sender key ID that two "
+        "accounts' devices really share (statistics only: a sender key ID cannot be claimed) - never outside the sender's scope",
+        "ATM has no ordering or replay protection of its own: a replayed trust message re-asserts its verdicts over decisions made since (counted; "
+        "idempotent when the first copy released no held-back decision); the end-to-end encryption layer is assumed to reject replays",
     ],
-    level_text="Theorems for every state and history, arbitrary accounts/keys: self/non-ATM messages ignored; a level changes only if the sender key was "
-               "Authenticated and only within scope (own device: any account, contact: own keys) - in every state and hence for all histories, cascades "
-               "of fired held-back decisions included; held back exactly in scope; fire only if / if (or superseded) the sender key id is authenticated, fired decisions take "
-               "effect; distrust discards, for ever; TOAKAFA; termination of the authenticate/postponed recursion; encryption namespaces independent. "
-               "Model (of the tree with the scope re-check of repo commit a532e12) tied to the code by exhaustive+random correspondence.",
+    level_text="Proved for every state (hence all histories), arbitrary accounts/keys: self and non-ATM messages ignored; a level changes only if the sender "
+               "key was Authenticated (ManuallyTrusted is not enough) and only within scope (own device: any account, contact: own keys), cascades of fired "
+               "held-back decisions included; decisions of unauthenticated senders are held back exactly in scope and change no level; a held entry is "
+               "applied only if / if (or superseded) authenticate() runs on its sender key ID with the entry in scope, applied decisions take effect, distrust "
+               "wins within a step; distrust() discards what is held under its key IDs, for ever; a held entry leaves the store only by firing, "
+               "supersession, distrust of its sender key ID, or an overwritten verdict; TOAKAFA; which levels ATM can produce; termination of the "
+               "authenticate/postponed recursion; the cascade depends only on SETS (order-independent inside a step; order across steps and inside a held "
+               "message documented by examples); encryption namespaces independent. NOT proved because false on the code: a contact's message makes only "
+               "held decisions about its own account disappear (two negative theorems with concrete histories, finding C18:cross-account-discard; partial "
+               "version proved). Model (tree with the scope re-check of a532e12) tied to the code by exhaustive+random correspondence.",
     level_note="Proved about the hand-written model; model-to-code tie is differential (exhaustive to a depth, sampled beyond). Firing is keyed by sender key "
                "id only, as in the code and the XEP: 'that key becomes authenticated' is read as 'authenticate() runs on a key with that id'.",
     design_ref="5.18",
